@@ -116,36 +116,25 @@ Print Assumptions C04_secure_refused.
    identify, unidentify, changename, register (Model.run_cmd; which except
    clause catches what around users.setUser is the regenerated table gen.T04) ---- *)
 
-(* Full statement: a command that is REFUSED (anything but "The operation
-   succeeded" / "Secure flag set to ...") leaves the user database exactly as it
-   was: same accounts, names, masks, secure flags; same logins up to the lazy
-   removal of expired ones.  Proved for every reachable state (Inv), clock,
-   timeout, sender, command (hostmask add / remove, identify, unidentify,
-   changename, register, set secure), arguments and oracle, whatever refuses -
-   the checks of the command or users.setUser, whose DuplicateHostmask reaches a
-   handler that puts the live account back (table T04; repairs of F23, F24) - on
-   the domain no_trace_dom: no lookup of the command ran the "Multiple matches"
-   branch (its removal of the offending hostmasks is the lookup's own reaction
-   to an ambiguous hostmask), and for `user set secure` the refusal did not come
-   out of users.setUser ... *)
+(* A command that is REFUSED (anything but "The operation succeeded" / "Secure
+   flag set to ...") leaves the user database exactly as it was: same accounts,
+   names, masks, secure flags; same logins up to the lazy removal of expired
+   ones.  For every reachable state (Inv), clock, timeout, sender, command
+   (hostmask add / remove, identify, unidentify, changename, register, set
+   secure), arguments and oracle, whatever refuses - the checks of the command
+   or users.setUser, whose DuplicateHostmask reaches in every command a handler
+   that puts the live account back (table T04; repairs of F23, F24, F26).  Only
+   proviso (no_trace_dom): no lookup of the command ran the "Multiple matches"
+   branch, whose removal of the offending hostmasks is the lookup's own,
+   documented reaction to an ambiguous hostmask. *)
 Theorem C04_refused_command_no_trace :
   forall t now o s P c,
     Inv s -> ids_bounded s ->
     let out := run_cmd t now o s P c in
-    r_ok out = false -> no_trace_dom c out ->
+    r_ok out = false -> no_trace_dom out ->
     same_db t now (s_users s) (s_users (r_st out)).
 Proof. exact refused_no_trace. Qed.
 Print Assumptions C04_refused_command_no_trace.
-
-(* ... outside: `user set secure` refused by users.setUser keeps the new flag
-   (finding F26: the command has no handler that undoes user.secure = value). *)
-Theorem C04_refused_command_no_trace_refuted :
-  exists t now o s P c,
-    let out := run_cmd t now o s P c in
-    r_ok out = false /\ r_amb out = false /\ r_set out = true /\
-    ~ same_db t now (s_users s) (s_users (r_st out)).
-Proof. exact refused_no_trace_refuted. Qed.
-Print Assumptions C04_refused_command_no_trace_refuted.
 
 (* An ACCEPTED hostmask add keeps the invariant behind
    C04_cache_coherent_on_domain (so lookups after it still answer the one
@@ -163,40 +152,23 @@ Print Assumptions C04_accepted_add_keeps_invariant.
 
 (* ---- "a 'secure' account additionally requires a matching registered mask" ---- *)
 
-(* Full statement: after ANY history of API operations (newUser, setUser,
-   delUser, identify, clearAuth, lookups) and User plugin commands from the empty
-   database, if a lookup answers id for h and the account is secure, one of its
-   registered masks matches h.  The code enforces the rule only where a login is
-   made (addAuth) and in the guard of `user set secure`
-   (checkHostmask(msg.prefix, useAuth=False), pinned by table T04), so it is
-   proved on the domain hhist_ok: no lookup of the history ran the
-   Multiple-matches branch (it strips masks), setUser is handed records whose
-   logins all match a mask when secure, and `hostmask remove` / `user set
-   secure` did not leave a secure account with a login that matches none of its
-   masks (they do not check: finding F25).  Everything else - identify,
-   unidentify, hostmask add with its rollback, changename, register, the lazy
-   removal of expired logins, every refusal path - preserves the rule. *)
-Theorem C04_secure_needs_mask_after_history_on_domain :
+(* After ANY history of API operations (newUser, setUser, delUser, identify,
+   clearAuth, lookups) and User plugin commands from the empty database - no
+   domain - if a lookup answers id for h, the account recognises h now, and if
+   it is secure one of its registered masks matches h.  (With the repair of F25
+   the rule is applied by IrcUser.checkHostmask itself, so ...) *)
+Theorem C04_secure_needs_mask_after_history :
   forall t ops now h id,
-    hhist_ok t init ops -> snd (getUserId t now (hrun t init ops) h) = Ok id ->
+    snd (getUserId t now (hrun t init ops) h) = Ok id ->
     exists u, In (id, u) (s_users (hrun t init ops)) /\ recog t now u h = true /\
               (u_secure u = true -> mask_match u h = true).
-Proof. exact secure_needs_mask_on_domain. Qed.
-Print Assumptions C04_secure_needs_mask_after_history_on_domain.
+Proof. exact secure_needs_mask_after_history. Qed.
+Print Assumptions C04_secure_needs_mask_after_history.
 
-(* the invariant behind it (every login of a secure account is from a hostmask
-   one of its masks matches) is preserved by every step of the domain *)
-Theorem C04_secure_invariant_step :
-  forall t now s h, SecAll (s_users s) -> hop_ok t now s h -> SecAll (s_users (hstep t now s h)).
-Proof. exact hstep_SecAll. Qed.
-Print Assumptions C04_secure_invariant_step.
-
-(* ... and the clean code violates the full statement: identify from q!q@q while
-   the flag is off, then `user set secure <password> True` from a matching
-   hostmask: the flag is on, the old login stays and is honoured (finding F25). *)
-Theorem C04_secure_needs_mask_after_history_refuted :
-  exists t ops now h id,
-    ~ hhist_ok t init ops /\ snd (getUserId t now (hrun t init ops) h) = Ok id /\
-    forall u, In (id, u) (s_users (hrun t init ops)) -> u_secure u = true /\ mask_match u h = false.
-Proof. exact secure_needs_mask_refuted. Qed.
-Print Assumptions C04_secure_needs_mask_after_history_refuted.
+(* ... it holds in every state whatsoever, reachable or not. *)
+Theorem C04_secure_needs_mask :
+  forall t now s h id,
+    snd (getUserId t now s h) = Ok id ->
+    exists u, In (id, u) (s_users s) /\ recog t now u h = true /\ (u_secure u = true -> mask_match u h = true).
+Proof. exact secure_needs_mask_state. Qed.
+Print Assumptions C04_secure_needs_mask.
